@@ -1,4 +1,5 @@
 import KrroodVerif.Model.SqlTr
+import KrroodVerif.Model.SqlTable
 /-!
 # C07 — an EQL query translated to SQL selects the same entities as in-memory evaluation
 
@@ -331,13 +332,84 @@ theorem good_or_left {db : DB} {roots : List Nat} {l r : Expr} (hg : Good db roo
 theorem good_or_right {db : DB} {roots : List Nat} {l r : Expr} (hg : Good db roots (.or l r)) : Good db roots r :=
   ⟨fun x hx c hc => hg.1 x hx c (by simp [exprChains, hc]), fun x hx c hc => hg.2 x hx c (by simp [ordChains, hc])⟩
 
+/-- ordering comparisons are only defined (in memory) between numbers -/
+theorem pyCmp_ord {op : Cmp} {v w : Val} {bb : Bool} (ho : isOrd op = true) (h : pyCmp op v w = some bb) :
+    (∃ n, v = .num n) ∧ (∃ m, w = .num m) := by
+  cases op <;> simp [isOrd] at ho <;>
+    (cases v <;> cases w <;> simp [pyCmp] at h <;> exact ⟨⟨_, rfl⟩, ⟨_, rfl⟩⟩)
+
+/-- literal ⋄ literal (two Python values: the comparison is Python's own) -/
+theorem cmp_lit_lit (op : Cmp) (m k : Option Int) (bb : Bool) (h : pyCmp op (litVal m) (litVal k) = some bb) :
+    sqlCmpV op (.lit m) (.lit k) (litVal m) (litVal k) = some true ↔ bb = true := by
+  cases m <;> cases k <;> cases op <;>
+    simp_all [pyCmp, sqlCmpV, litVal, sqlCmpVal, cmpInt, null_beq_num, num_beq_null, num_beq] <;>
+    (subst h; simp)
+
+/-- **What the proof needs to know about an evaluation `ev` of WHERE conditions**: Kleene and/or, and for each kind of
+atom that it is TRUE exactly when Python's operator is True on the same (scalar) values — wherever Python's operator is
+defined.  The hand-written `evalSql` satisfies it (`evalSql_sem`); so does `evalSqlT T` for EVERY operator table `T`
+that passes the decidable check `tableOk` (`evalSqlT_sem`, Props/C07Table.lean). -/
+structure SqlSem (ev : DB → List Nat → SqlCond → Option Bool) : Prop where
+  and_ : ∀ db env a b, ev db env (.and a b) = and3 (ev db env a) (ev db env b)
+  or_ : ∀ db env a b, ev db env (.or a b) = or3 (ev db env a) (ev db env b)
+  cmp : ∀ db env op a b bb, Scalar (sqlOperandVal db env a) → Scalar (sqlOperandVal db env b) →
+    pyCmp op (sqlOperandVal db env a) (sqlOperandVal db env b) = some bb →
+    (ev db env (.cmp op a b) = some true ↔ bb = true)
+  inList : ∀ db env c vs, Scalar ((sqlColVal db env c).getD .null) →
+    (ev db env (.inList c vs) = some true ↔
+      (vs.any fun w => litVal w == (sqlColVal db env c).getD .null) = true)
+  truthy : ∀ db env c, Scalar ((sqlColVal db env c).getD .null) →
+    (ev db env (.truthy c) = some true ↔ pyTruthy ((sqlColVal db env c).getD .null) = true)
+
+/-- the hand-written SQL semantics (`evalSql`: the model of the code as it is) has the property -/
+theorem evalSql_sem : SqlSem evalSql where
+  and_ := fun _ _ _ _ => rfl
+  or_ := fun _ _ _ _ => rfl
+  cmp := by
+    intro db env op a b bb hva hvb hpy
+    have hord : isOrd op = true → (∃ n, sqlOperandVal db env a = .num n) ∧ (∃ n, sqlOperandVal db env b = .num n) :=
+      fun ho => pyCmp_ord ho hpy
+    simp only [evalSql, sqlCmp]
+    cases a with
+    | col c =>
+      cases b with
+      | col d =>
+        obtain ⟨b', h1, h2⟩ := cmp_col_col op c d _ _ hva hvb hord
+        rw [hpy] at h1; cases h1; exact h2
+      | lit k =>
+        have hm : k = none → op = .eq ∨ op = .ne := by
+          intro hk; subst hk
+          cases op <;> first | exact Or.inl rfl | exact Or.inr rfl | (obtain ⟨_, ⟨n, hn⟩⟩ := hord rfl; simp [sqlOperandVal, litVal] at hn)
+        obtain ⟨b', h1, h2⟩ := cmp_col_lit op c _ k hva (fun ho => (hord ho).1) hm
+        simp only [sqlOperandVal] at hpy h1 h2 ⊢
+        rw [hpy] at h1; cases h1; exact h2
+    | lit m =>
+      cases b with
+      | col d =>
+        have hm : m = none → op = .eq ∨ op = .ne := by
+          intro hk; subst hk
+          cases op <;> first | exact Or.inl rfl | exact Or.inr rfl | (obtain ⟨⟨n, hn⟩, _⟩ := hord rfl; simp [sqlOperandVal, litVal] at hn)
+        obtain ⟨b', h1, h2⟩ := cmp_lit_col op d _ m hvb (fun ho => (hord ho).2) hm
+        simp only [sqlOperandVal] at hpy h1 h2 ⊢
+        rw [hpy] at h1; cases h1; exact h2
+      | lit k => exact cmp_lit_lit op m k bb hpy
+  inList := by
+    intro db env c vs hv
+    simp only [evalSql]
+    exact sqlIn_scalar _ vs hv
+  truthy := by
+    intro db env c hv
+    simp only [evalSql]
+    rcases hv with h | ⟨n, h⟩ <;> rw [h] <;> simp [pyTruthy]
+
 /-- the heart: on the fragment, for every candidate row, the translated condition is TRUE under SQL's logic exactly when
 in-memory evaluation (which does not raise) says True; joins added never drop a candidate. -/
-theorem tr_frag (S : Schema) (sel : Cls) (db : DB) (roots : List Nat) : ∀ (e : Expr) (uo : Bool) (st : St)
+theorem tr_frag (ev : DB → List Nat → SqlCond → Option Bool) (hs : SqlSem ev)
+    (S : Schema) (sel : Cls) (db : DB) (roots : List Nat) : ∀ (e : Expr) (uo : Bool) (st : St)
     (p : Option SqlCond) (st' : St), Frag e → Good db roots e → JoinsNav db roots st →
     tr S [sel] uo e st = .ok (p, st') →
     JoinsNav db roots st' ∧ st'.eqJoins = st.eqJoins ∧
-    ∃ c, p = some c ∧ ∀ r ∈ roots, ∃ b, evalCond db [r] e = some b ∧ (evalSql db [r] c = some true ↔ b = true) := by
+    ∃ c, p = some c ∧ ∀ r ∈ roots, ∃ b, evalCond db [r] e = some b ∧ (ev db [r] c = some true ↔ b = true) := by
   intro e
   induction e with
   | and l r ihl ihr =>
@@ -362,7 +434,7 @@ theorem tr_frag (S : Schema) (sel : Cls) (db : DB) (roots : List Nat) : ∀ (e :
         refine ⟨bl && br, ?_, ?_⟩
         · simp only [evalCond, hbl]
           cases bl <;> simp [hbr]
-        · simp only [evalSql, and3_true, hbl', hbr', Bool.and_eq_true]
+        · simp only [hs.and_, and3_true, hbl', hbr', Bool.and_eq_true]
   | or l r ihl ihr =>
     intro uo st p st' hf hg hinv h
     obtain ⟨hfl, hfr⟩ := hf
@@ -385,21 +457,25 @@ theorem tr_frag (S : Schema) (sel : Cls) (db : DB) (roots : List Nat) : ∀ (e :
         refine ⟨bl || br, ?_, ?_⟩
         · simp only [evalCond, hbl]
           cases bl <;> simp [hbr]
-        · simp only [evalSql, or3_true, hbl', hbr', Bool.or_eq_true]
+        · simp only [hs.or_, or3_true, hbl', hbr', Bool.or_eq_true]
   | cmp op l r =>
     intro uo st p st' hf hg hinv h
     cases l with
     | other k => simp [Frag] at hf
+    | var v s => simp [Frag] at hf
+    | obj i => simp [Frag] at hf
     | chain c =>
       cases r with
       | other k => simp [Frag] at hf
+      | var v s => simp [Frag] at hf
+      | obj i => simp [Frag] at hf
       | lit v =>
         obtain ⟨h0, hv⟩ := hf
         have hgc : ∀ x ∈ roots, ∃ w, chainVal db [x] c = some w :=
           fun x hx => by obtain ⟨w, hw, _⟩ := hg.1 x hx c (by simp [exprChains]); exact ⟨w, hw⟩
         have hj : eqJoinFor S [sel] uo op (.chain c) (.lit v) st = .fallthrough := by
           cases op <;> rfl
-        simp only [tr, hj, trOrdinary, trOperand, Except.map] at h
+        simp only [tr, varObj?, hj, trOrdinary, trOperand, Except.map] at h
         split at h
         · simp at h
         · rename_i a st1 h1
@@ -421,11 +497,13 @@ theorem tr_frag (S : Schema) (sel : Cls) (db : DB) (roots : List Nat) : ∀ (e :
               obtain ⟨n, hn⟩ := hg.2 x hx c (by simp [ordChains, ho])
               rw [hw] at hn
               exact ⟨n, Option.some.inj hn⟩
-            obtain ⟨b, hb1, hb2⟩ := cmp_col_lit op col w v hsc hord hv
+            obtain ⟨b, hb1, _⟩ := cmp_col_lit op col w v hsc hord hv
             refine ⟨b, ?_, ?_⟩
             · simp [evalCond, operandVal, hw, hb1]
-            · simp only [evalSql, sqlCmp, sqlOperandVal, hcv, Option.getD_some]
-              exact hb2
+            · have h1 : sqlOperandVal db [x] (.col col) = w := by simp [sqlOperandVal, hcv]
+              have h2 : sqlOperandVal db [x] (.lit v) = litVal v := rfl
+              exact hs.cmp db [x] op _ _ b (by rw [h1]; exact hsc) (by rw [h2]; exact litVal_scalar v)
+                (by rw [h1, h2]; exact hb1)
       | chain d =>
         obtain ⟨h0, h0d⟩ := hf
         have hgc : ∀ x ∈ roots, ∃ w, chainVal db [x] c = some w :=
@@ -436,7 +514,7 @@ theorem tr_frag (S : Schema) (sel : Cls) (db : DB) (roots : List Nat) : ∀ (e :
           have hj' : eqJoinAttempt S [sel] c d st = .fallthrough := by
             simp [eqJoinAttempt, h0, h0d]
           cases op <;> first | rfl | (simp only [eqJoinFor, hj']; split <;> rfl)
-        simp only [tr, hj, trOrdinary, trOperand, Except.map] at h
+        simp only [tr, varObj?, hj, trOrdinary, trOperand, Except.map] at h
         split at h
         · simp at h
         · rename_i a st1 h1
@@ -474,14 +552,18 @@ theorem tr_frag (S : Schema) (sel : Cls) (db : DB) (roots : List Nat) : ∀ (e :
                   rw [hw1] at hn
                   rw [hw2] at hm
                   exact ⟨⟨n, Option.some.inj hn⟩, ⟨m, Option.some.inj hm⟩⟩
-                obtain ⟨b, hb1, hb2⟩ := cmp_col_col op col col2 w1 w2 hsc1 hsc2 hord
+                obtain ⟨b, hb1, _⟩ := cmp_col_col op col col2 w1 w2 hsc1 hsc2 hord
                 refine ⟨b, ?_, ?_⟩
                 · simp [evalCond, operandVal, hw1, hw2, hb1]
-                · simp only [evalSql, sqlCmp, sqlOperandVal, hcv1, hcv2, Option.getD_some]
-                  exact hb2
+                · have h1 : sqlOperandVal db [x] (.col col) = w1 := by simp [sqlOperandVal, hcv1]
+                  have h2 : sqlOperandVal db [x] (.col col2) = w2 := by simp [sqlOperandVal, hcv2]
+                  exact hs.cmp db [x] op _ _ b (by rw [h1]; exact hsc1) (by rw [h2]; exact hsc2)
+                    (by rw [h1, h2]; exact hb1)
     | lit v =>
       cases r with
       | other k => simp [Frag] at hf
+      | var v s => simp [Frag] at hf
+      | obj i => simp [Frag] at hf
       | lit w => simp [Frag] at hf
       | chain c =>
         obtain ⟨h0, hv⟩ := hf
@@ -489,7 +571,7 @@ theorem tr_frag (S : Schema) (sel : Cls) (db : DB) (roots : List Nat) : ∀ (e :
           fun x hx => by obtain ⟨w, hw, _⟩ := hg.1 x hx c (by simp [exprChains]); exact ⟨w, hw⟩
         have hj : eqJoinFor S [sel] uo op (.lit v) (.chain c) st = .fallthrough := by
           cases op <;> rfl
-        simp only [tr, hj, trOrdinary, trOperand, Except.map] at h
+        simp only [tr, varObj?, hj, trOrdinary, trOperand, Except.map] at h
         split at h
         · simp at h
         · rename_i a st1 h1
@@ -511,15 +593,19 @@ theorem tr_frag (S : Schema) (sel : Cls) (db : DB) (roots : List Nat) : ∀ (e :
               obtain ⟨n, hn⟩ := hg.2 x hx c (by simp [ordChains, ho])
               rw [hw] at hn
               exact ⟨n, Option.some.inj hn⟩
-            obtain ⟨b, hb1, hb2⟩ := cmp_lit_col op col w v hsc hord hv
+            obtain ⟨b, hb1, _⟩ := cmp_lit_col op col w v hsc hord hv
             refine ⟨b, ?_, ?_⟩
             · simp [evalCond, operandVal, hw, hb1]
-            · simp only [evalSql, sqlCmp, sqlOperandVal, hcv, Option.getD_some]
-              exact hb2
+            · have h1 : sqlOperandVal db [x] (.col col) = w := by simp [sqlOperandVal, hcv]
+              have h2 : sqlOperandVal db [x] (.lit v) = litVal v := rfl
+              exact hs.cmp db [x] op _ _ b (by rw [h2]; exact litVal_scalar v) (by rw [h1]; exact hsc)
+                (by rw [h1, h2]; exact hb1)
   | isIn item vs =>
     intro uo st p st' hf hg hinv h
     cases item with
     | other k => simp [Frag] at hf
+    | var v s => simp [Frag] at hf
+    | obj i => simp [Frag] at hf
     | lit v => simp [Frag] at hf
     | chain c =>
       have h0 : c.var = 0 := hf
@@ -540,8 +626,9 @@ theorem tr_frag (S : Schema) (sel : Cls) (db : DB) (roots : List Nat) : ∀ (e :
         rw [hw] at hcv
         refine ⟨vs.any fun u => litVal u == w, ?_, ?_⟩
         · simp [evalCond, operandVal, hw]
-        · simp only [evalSql, hcv, Option.getD_some]
-          exact sqlIn_scalar w vs hsc
+        · have h := hs.inList db [x] col vs (by rw [hcv]; exact hsc)
+          rw [hcv] at h
+          exact h
   | attr c =>
     intro uo st p st' hf hg hinv h
     have h0 : c.var = 0 := hf
@@ -562,8 +649,11 @@ theorem tr_frag (S : Schema) (sel : Cls) (db : DB) (roots : List Nat) : ∀ (e :
       rw [hw] at hcv
       refine ⟨pyTruthy w, ?_, ?_⟩
       · simp [evalCond, hw]
-      · rcases hsc with rfl | ⟨n, rfl⟩ <;> simp [evalSql, hcv, pyTruthy]
+      · have h := hs.truthy db [x] col (by rw [hcv]; exact hsc)
+        rw [hcv] at h
+        exact h
   | substr tab a b => intro uo st p st' hf; simp [Frag] at hf
+  | strAttr tab c => intro uo st p st' hf; simp [Frag] at hf
   | not e _ => intro uo st p st' hf; simp [Frag] at hf
   | exist v e _ => intro uo st p st' hf; simp [Frag] at hf
   | all v e _ => intro uo st p st' hf; simp [Frag] at hf
@@ -584,14 +674,23 @@ theorem select_eq (roots : List Nat) (f : Nat → Option Bool) (g : Nat → Bool
 
 /-! ## The property theorems -/
 
-/-- **C07_preserves_partial.**  For a single-variable `an/the(entity(x, cond))` whose condition is in the fragment,
-over any database on which the compared chains are numbers for every candidate: if the translator accepts, the rows the
-statement returns are *exactly* (same ids, no duplicates, same order) the entities in-memory evaluation returns, and
-in-memory evaluation does not raise. -/
-theorem C07_preserves_partial (S : Schema) (db : DB) (q : Query) (sel : Cls) (e : Expr) (s : SqlQuery)
+theorem whereTrueWith_evalSql (db : DB) (env : List Nat) (w : Option SqlCond) :
+    whereTrueWith evalSql db env w = whereTrue db env w := by
+  cases w <;> rfl
+
+theorem execSqlWith_evalSql (S : Schema) (s : SqlQuery) (db : DB) : execSqlWith evalSql S s db = execSql S s db := by
+  unfold execSqlWith execSql
+  simp only [whereTrueWith_evalSql]
+
+/-- **C07_preserves_with.**  `C07_preserves_partial` for ANY evaluation `ev` of WHERE conditions that has the property
+`SqlSem` (Kleene and/or; every atom TRUE exactly when Python's operator is True): the statement executed with `ev`
+returns exactly the entities in-memory evaluation returns.  Instances: the hand-written semantics
+(`C07_preserves_partial`) and every operator table passing `tableOk` (`C07_table_preserves`). -/
+theorem C07_preserves_with (ev : DB → List Nat → SqlCond → Option Bool) (hs : SqlSem ev)
+    (S : Schema) (db : DB) (q : Query) (sel : Cls) (e : Expr) (s : SqlQuery)
     (hv : q.vars = [sel]) (hc : q.cond = some e) (hf : Frag e) (hg : Good db (rootsOf S db sel) e)
     (ht : translate S q = .ok s) :
-    evalMem S q db = some (execSql S s db) := by
+    evalMem S q db = some (execSqlWith ev S s db) := by
   unfold translate at ht
   split at ht
   · simp at ht
@@ -606,13 +705,13 @@ theorem C07_preserves_partial (S : Schema) (db : DB) (q : Query) (sel : Cls) (e 
         subst ht
         have hinv0 : JoinsNav db (rootsOf S db sel) ({} : St) := by
           intro j hj; simp at hj
-        obtain ⟨hjn, hej, c, hw, hcond⟩ := tr_frag S sel db (rootsOf S db sel) e false {} w st hf hg hinv0 htr
+        obtain ⟨hjn, hej, c, hw, hcond⟩ := tr_frag ev hs S sel db (rootsOf S db sel) e false {} w st hf hg hinv0 htr
         subst hw
         have hej' : st.eqJoins = [] := by rw [hej]
-        unfold evalMem execSql
+        unfold evalMem execSqlWith
         rw [hv, hc]
         simp only [List.getElem?_cons_zero, hej', List.all_nil, Bool.and_true, List.tail_cons, restEnvs]
-        have hsel : ∀ r ∈ rootsOf S db sel, memSelects S db q e r = some (evalSql db [r] c == some true) := by
+        have hsel : ∀ r ∈ rootsOf S db sel, memSelects S db q e r = some (ev db [r] c == some true) := by
           intro r hr
           obtain ⟨b, hb, hiff⟩ := hcond r hr
           unfold memSelects
@@ -621,7 +720,7 @@ theorem C07_preserves_partial (S : Schema) (db : DB) (q : Query) (sel : Cls) (e 
           cases b with
           | true => simp [hiff.mpr rfl]
           | false =>
-            have : evalSql db [r] c ≠ some true := fun h => by simpa using hiff.mp h
+            have : ev db [r] c ≠ some true := fun h => by simpa using hiff.mp h
             simp [this]
         have hjo : ∀ r ∈ rootsOf S db sel, joinsOk db [r] st.joins = true := by
           intro r hr
@@ -638,10 +737,21 @@ theorem C07_preserves_partial (S : Schema) (db : DB) (q : Query) (sel : Cls) (e 
           obtain ⟨r, hr, rfl⟩ := hp
           simp [hsel r hr]
         simp only [hnone, Bool.false_eq_true, ↓reduceIte, Option.some.injEq]
-        exact select_eq roots _ (fun r => evalSql db [r] c == some true) _ hsel
+        exact select_eq roots _ (fun r => ev db [r] c == some true) _ hsel
           (fun r hr => by
-            simp only [List.filter_cons, List.filter_nil, hjo r hr, whereTrue, Bool.true_and]
-            cases evalSql db [r] c == some true <;> simp)
+            simp only [List.filter_cons, List.filter_nil, hjo r hr, whereTrueWith, Bool.true_and]
+            cases ev db [r] c == some true <;> simp)
+
+/-- **C07_preserves_partial.**  For a single-variable `an/the(entity(x, cond))` whose condition is in the fragment,
+over any database on which the compared chains are numbers for every candidate: if the translator accepts, the rows the
+statement returns are *exactly* (same ids, no duplicates, same order) the entities in-memory evaluation returns, and
+in-memory evaluation does not raise. -/
+theorem C07_preserves_partial (S : Schema) (db : DB) (q : Query) (sel : Cls) (e : Expr) (s : SqlQuery)
+    (hv : q.vars = [sel]) (hc : q.cond = some e) (hf : Frag e) (hg : Good db (rootsOf S db sel) e)
+    (ht : translate S q = .ok s) :
+    evalMem S q db = some (execSql S s db) := by
+  rw [← execSqlWith_evalSql]
+  exact C07_preserves_with evalSql evalSql_sem S db q sel e s hv hc hf hg ht
 
 /-- **C07_the_partial.**  On the same fragment `the(...)` fails in both worlds or in neither, with the same class
 (no row ↔ NoSolutionFound/NoResultFound, several ↔ MultipleSolutionFound/MultipleResultsFound), else the same entity. -/
@@ -709,6 +819,7 @@ theorem C07_rejects_nested (S : Schema) (vars : List Cls) : ∀ (e : Expr) (uo :
   | isIn i vs => intro uo st h; simp [ContainsOutside, OutsideDispatch] at h
   | attr c => intro uo st h; simp [ContainsOutside, OutsideDispatch] at h
   | substr tab a b => intro uo st h; simp [ContainsOutside, OutsideDispatch] at h
+  | strAttr tab c => intro uo st h; simp [ContainsOutside, OutsideDispatch] at h
   | not e _ => intro uo st _; exact ⟨_, C07_rejects S vars uo _ st trivial⟩
   | exist v e _ => intro uo st _; exact ⟨_, C07_rejects S vars uo _ st trivial⟩
   | all v e _ => intro uo st _; exact ⟨_, C07_rejects S vars uo _ st trivial⟩
@@ -871,6 +982,61 @@ example : ∃ s, translate nameSchema ⟨false, .entity, ["Body"], some (.substr
     execSql nameSchema s nameDB = [1, 2] ∧
     evalMem nameSchema ⟨false, .entity, ["Body"], some (.substr nameTab (.lit 3) (.chain ⟨0, ["name"]⟩))⟩ nameDB = some [1, 2] := by
   refine ⟨_, rfl, ?_, ?_⟩ <;> decide
+
+/-! ## The two condition shapes added last: a bare STRING attribute, a whole variable compared with an object
+(open findings F-C07-6 / F-C07-7: counter-examples by `decide` on the recorded witnesses; `SqlCond.repair` is the statement
+a repaired translator would produce, and on the witnesses it agrees with memory) -/
+
+/-- ranks: 1 ↦ "", 2 ↦ "0", 3 ↦ "1", 4 ↦ "ab" (code-point order) -/
+def truthTab : StrTab := [[], ['0'], ['1'], ['a', 'b']]
+/-- bodies named "ab", "1", "0", "" -/
+def truthDB : DB := [named 4, named 3, named 2, named 1]
+/-- `an(entity(b, b.name))` -/
+def qStrTruthy : Query := ⟨false, .entity, ["Body"], some (.strAttr truthTab ⟨0, ["name"]⟩)⟩
+
+/-- **C07_cex_string_truthiness** (F-C07-6, open).  `entity(b, b.name)`: in memory every body with a non-empty name is
+selected ("ab", "1", "0"); the statement is `… WHERE BodyDAO.name`, and SQLite casts the TEXT to NUMERIC: only "1" is
+non-zero.  With the repaired rendering (`name IS NOT NULL AND name != ''`) both worlds agree. -/
+theorem C07_cex_string_truthiness :
+    ∃ s, translate nameSchema qStrTruthy = .ok s ∧ hasStrAttr (.strAttr truthTab ⟨0, ["name"]⟩) = true ∧
+      execSql nameSchema s truthDB = [1] ∧ evalMem nameSchema qStrTruthy truthDB = some [0, 1, 2] ∧
+      execSql nameSchema s.repair truthDB = [0, 1, 2] := by
+  refine ⟨_, rfl, rfl, ?_, ?_, ?_⟩ <;> decide
+
+/-- (tests) SQLite's cast on the strings probed on the real engine -/
+example : ([['1', '2', 'a'], ['-', '1'], ['0', '.', '5'], ['.', '5'], ['1', 'e', '3'], ['+', '2'], [' ', '3']].all sqliteTextTruthy
+    && ([['a', 'b'], ['0'], ['a', '1'], ['0', 'x', '1'], ['0', '0'], ['0', '.', '0'], ['-', '0'], [], ['e', '5'], ['-'], ['.']].all
+      fun s => !sqliteTextTruthy s)) = true := by decide
+
+/-- `p = let(Position, domain); an(entity(p, p == positions[3]))`; the first element of the domain is object 0 -/
+def qVarObj (i : Nat) (op : Cmp) : Query :=
+  ⟨false, .entity, ["Position"], some (.cmp op (.var 0 (some 0)) (.obj i))⟩
+
+/-- **C07_cex_var_eq_obj** (F-C07-7, open).  `p == obj` is evaluated by Python at translation time on the FIRST element
+of the variable's domain: for `obj` = that element the statement is `WHERE true` (every position is returned, memory
+returns one), for any other object `WHERE false` (nothing is returned, memory returns the object); `!=` likewise.  With
+the repaired rendering (comparison of primary keys) both worlds agree. -/
+theorem C07_cex_var_eq_obj :
+    (∃ s, translate posSchema (qVarObj 3 .eq) = .ok s ∧ execSql posSchema s posDB = [] ∧
+      evalMem posSchema (qVarObj 3 .eq) posDB = some [3] ∧ execSql posSchema s.repair posDB = [3]) ∧
+    (∃ s, translate posSchema (qVarObj 0 .eq) = .ok s ∧ execSql posSchema s posDB = [0, 1, 2, 3] ∧
+      evalMem posSchema (qVarObj 0 .eq) posDB = some [0] ∧ execSql posSchema s.repair posDB = [0]) ∧
+    (∃ s, translate posSchema (qVarObj 3 .ne) = .ok s ∧ execSql posSchema s posDB = [0, 1, 2, 3] ∧
+      evalMem posSchema (qVarObj 3 .ne) posDB = some [0, 1, 2] ∧ execSql posSchema s.repair posDB = [0, 1, 2]) ∧
+    hasVarObj (.cmp .eq (.var 0 (some 0)) (.obj 3)) = true := by
+  refine ⟨⟨_, rfl, ?_, ?_, ?_⟩, ⟨_, rfl, ?_, ?_, ?_⟩, ⟨_, rfl, ?_, ?_, ?_⟩, rfl⟩ <;> decide
+
+/-- a class with a `name`: the sample is replaced by its database id, which never equals an object: `b == obj` is
+`WHERE false` whatever `obj` is (a test) -/
+example : ∃ s, translate nameSchema ⟨false, .entity, ["Body"], some (.cmp .eq (.var 0 (some 0)) (.obj 0))⟩ = .ok s ∧
+    execSql nameSchema s nameDB = [] ∧
+    evalMem nameSchema ⟨false, .entity, ["Body"], some (.cmp .eq (.var 0 (some 0)) (.obj 0))⟩ nameDB = some [0] := by
+  refine ⟨_, rfl, ?_, ?_⟩ <;> decide
+
+/-- the new atoms are outside `Frag`: `C07_preserves_partial` does not claim them (the trigger of the two findings is
+the complement) -/
+example : ¬ Frag (.strAttr truthTab ⟨0, ["name"]⟩) ∧ ¬ Frag (.cmp .eq (.var 0 (some 0)) (.obj 3)) := by
+  simp [Frag]
 
 /-! ## Non-vacuity: the hypotheses of `C07_preserves_partial` are satisfiable by a non-trivial input, the translator
 accepts it, and the common answer is neither empty nor everything. -/
